@@ -264,7 +264,7 @@ def run(ctx, seed=None, only=None, nper=None):
     if rc != 0:
         raise vlib.CheckFailure("cannot build the base image: rc=%s %s" % (rc, err))
     if nper is None:
-        nper = 2 if ctx.quick() else 10
+        nper = 2 if ctx.quick() else 12
     results, skipped, agg = [], [], {}
     for name, sc in S.items():
         if only and name != only["scenario"]:
